@@ -1,13 +1,12 @@
 PROP = dict(
-    unclaimed=True,
     module="M3d.Props.C17",
-    corr=dict(quick=300, thorough=2500),
+    corr=dict(quick=300, thorough=4000),
     gen=["Binomial"],
     corr_theorems=(
         "exact mode (q): the driver prints the SPECIFICATION wherever M3d.C17 proves the faithful model equal to it — "
         "bezier_eval_eq_decasteljau (bez eval -> de Casteljau), bezier_split_eval (bez spliteval), segment_curve_eval (seg eval -> arclength walk), "
         "mat{2,3}_inverse_mul/mul_inverse (invmul -> identity), divide_root (divrootid -> 0), canonical_angle_congruent/angle_dist_circular (angle), "
-        "search_best_of_samples/line_search_best_of_samples/grid*_best_of_samples/gss_best_of_samples (ls g2 g3 rls gss: result and full evaluation trace); "
+        "search_best_of_samples/line_search_best_of_samples/grid*_best_of_samples/rls_best_of_samples/gss_best_of_samples (ls g2 g3 rls gss: result and full evaluation trace), joined_curve_eval, bisection_search_bracket; "
         "bit mode (f): the same generic models run at Float, same operations in the same order; kind resid: validation only"
     ),
     rule=(
